@@ -286,6 +286,17 @@ def run(R):
     fv = [c for c in q.calls(send.node) if q.call_name(c) == "ConstFuture"]
     R.check(len(fv) == 1 and q.src(fv[0].args[0]).endswith(".value"), "C17.ENDMARK", send.qualname + ":first-value", R.site(send),
             "a Value produced immediately is returned as ConstFuture(value)", "an immediately produced Value is not returned as a constant future of its value")
+    # printing an async generator (e.g. as a task argument under COLLECT_PERF_STATS) must work in every state
+    from .c18 import diag_robust
+    rp = ag.methods.get("__repr__")
+    if rp is not None:
+        nrob = diag_robust(R, {rp.qualname: rp}, "C17.REPR")
+        fields = ag.fields()
+        for recv, attr, node in q.attr_loads(rp.node):
+            if recv == "self":
+                R.check(attr in fields or ag.find_method(attr) is not None, "C17.REPR", "%s:self.%s" % (rp.qualname, attr), R.site(rp, node),
+                        "self.%s is a field of _AsyncGenerator" % attr, "__repr__ reads self.%s, which _AsyncGenerator never defines" % attr)
+    # the END marker is compared by identity and a Value by isinstance (subclasses of Value are Values)
     R.require_min("C17.END-FILTER", 4)
     R.require_min("C17.VALUE-FLOW", 4)
 
